@@ -1,6 +1,7 @@
 mod common;
 mod crash;
 mod c01;
+mod c01conf;
 mod c02;
 mod c03;
 mod c04;
@@ -78,6 +79,10 @@ fn main() {
             ("C01", _) => c01::worker(fam, start, end, step, arg),
             _ => panic!("unknown worker"),
         }
+        return;
+    }
+    if args[1] == "conf-child" {
+        c01conf::child(&args[2], args[3].parse().unwrap());
         return;
     }
     if args[1] == "replay" {
